@@ -86,13 +86,21 @@ def shared_mutable(a_root, b_root):
     return out
 
 
-def observe(m):
-    """Everything observable of a model: content incl. notes / annotations / groups, cross references, raw GLPK problem, tolerance, solver settings."""
+def observe(m, exact=False):
+    """Everything observable of a model: content incl. notes / annotations / groups, cross references, raw GLPK problem, tolerance, solver settings.
+    The GLPK problem is compared to 15 significant digits unless `exact` (known finding solver-copy-15-digits: optlang copies a GLPK problem
+    through its text form)."""
     cfg = m.solver.configuration
-    return {"content": richgen.rich_dump(m), "xref": canon.xref_problems(m), "glpk": canon.glpk_dump(m), "tolerance": m.tolerance,
+    g = canon.glpk_dump(m)
+    return {"content": richgen.rich_dump(m), "xref": canon.xref_problems(m), "glpk": g if exact else c10_digits15(g), "tolerance": m.tolerance,
             "solver": [type(m.solver).__module__] + [getattr(cfg.tolerances, t) for t in ("feasibility", "integrality")] +
                       [cfg.timeout, str(cfg.presolve), str(cfg.verbosity)],
             "groups_members": {g.id: sorted(f"{type(x).__name__}:{x.id}" for x in g.members) for g in m.groups}}
+
+
+def c10_digits15(x):
+    import c10
+    return c10.digits15(x)
 
 
 def decorate(m, rng):
@@ -107,6 +115,13 @@ def decorate(m, rng):
     for x in m.metabolites:
         if rng.random() < 0.5:
             x.formula, x.charge = rng.choice([("C6H12O6", 0), ("H2O", 0), ("C3H4O10P2", -2)])
+    if rng.random() < 0.3 and len(m.reactions):
+        # values that need all 17 digits
+        r = m.reactions[rng.randint(0, len(m.reactions) - 1)]
+        for x in list(r.metabolites)[:1]:
+            r.add_metabolites({x: 1 / 3}, combine=False)
+        if r.lower_bound <= 0.1 + 0.2 <= r.upper_bound:
+            r.upper_bound = 0.1 + 0.2
     m.notes = {"origin": "generated", "list": [1, 2]}
     m.annotation = {"taxonomy": ["511145"]}
     if rng.random() < 0.6:
@@ -408,6 +423,18 @@ def check_object_case(case):
     return fails, "ran"
 
 
+def solver_digits_witness():
+    """Known finding: the solver problem of a copy carries coefficients rounded to 15 significant digits."""
+    from cobra import Model
+    with warnings.catch_warnings():
+        warnings.simplefilter("ignore")
+        m = Model("w")
+        r = Reaction("r1")
+        r.add_metabolites({Metabolite("a_c"): 1 / 3})
+        m.add_reactions([r])
+        return canon.glpk_dump(m.copy()) != canon.glpk_dump(m)
+
+
 def gen_model_case(rng):
     spec = coreops.gen_model_spec(rng)
     seed = rng.randint(0, 10 ** 9)
@@ -468,7 +495,7 @@ def run(ctx):
     import translate_copy
     common.proof_stage(ctx, "CobraModel.Props.C12", extra_scan=["CobraModel/Gen/CopySpec.lean"], regenerate=translate_copy.regenerate)
     rng = ctx.rng
-    n = ctx.scale(150, 4000)
+    n = ctx.scale(400, 6000)
     ran = 0
     kinds = {}
     distinct = set()
@@ -498,6 +525,15 @@ def run(ctx):
             samples.append(case)
         if fails:
             ctx.violations.append({"engine": "copy separation on the real code", "case": case, "failures": fails[:6]})
+    for kf in common.known_for("C12"):
+        w = kf.get("witness") or {}
+        hit = False
+        if w.get("kind") == "solver-digits":
+            hit = solver_digits_witness()
+        if hit:
+            ctx.known_hits.append(f"{kf['signature']}: {kf['description'][:160]}")
+        else:
+            ctx.notes.append(f"known finding {kf['signature']} no longer reproduces")
     # the generated copy specification against what Model.copy is observed to do (correspondence of the table)
     table_ok, table_n, mism = translate_copy.validate_table(rng)
     for x in mism[:3]:
